@@ -39,6 +39,21 @@ def S(t):
     return SymInt(t) if isinstance(t, z3.ExprRef) else t
 
 
+_dm = itertools.count()
+
+
+def divmod_sym(p, n):
+    """(p div n, p mod n) for n >= 1 through fresh quotient / remainder variables with their defining
+    constraints (p = q n + r, 0 <= r < n) added to the path: z3 decides nonlinear div / mod far better this way."""
+    ctx = core.cur()
+    k = next(_dm)
+    q = z3.Int('dm_q!%d' % k)
+    r = z3.Int('dm_r!%d' % k)
+    n = I(n)
+    ctx.solver.add(p == q * n + r, r >= 0, r < n)
+    return q, r
+
+
 def unsupported(what):
     if core.have_ctx():
         core.cur().flag('LV: unsupported operation %s' % what)
@@ -47,10 +62,13 @@ def unsupported(what):
 class LV:
     """shape: tuple of int|SymInt; addr(idx) -> z3 Int (byte address in `file`) for idx a tuple of z3 Int terms."""
 
-    def __init__(self, file, shape, addr, note=''):
+    def __init__(self, file, shape, addr, note='', src=None):
         self.file = file
         self.shape = tuple(shape)
         self._addr = addr
+        # index into the root array this view was derived from (identity for a root): lets an obligation compare
+        # index tuples instead of addresses, which keeps multiplication by symbolic extents out of the claim
+        self._src = src if src is not None else (lambda idx: idx)
         self.note = note
         self.obligations = []        # side conditions collected while building the view: (description, z3 Bool)
 
@@ -60,8 +78,15 @@ class LV:
     def at(self, idx):
         return self._addr(tuple(I(i) for i in idx))
 
-    def _child(self, shape, addr, note):
-        c = LV(self.file, shape, addr, note)
+    def src(self, idx):
+        return self._src(tuple(I(i) for i in idx))
+
+    def _child(self, shape, addr, note, mapper=None):
+        base = self
+        if mapper is not None:
+            c = LV(self.file, shape, lambda idx: base._addr(mapper(idx)), note, src=lambda idx: base._src(mapper(idx)))
+        else:
+            c = LV(self.file, shape, addr, note, src=lambda idx: None)
         c.obligations = self.obligations      # shared list: side conditions travel with the data
         return c
 
@@ -76,6 +101,8 @@ class LV:
         if len(shape) == 1 and not isinstance(shape[0], (int, SymInt, _np.integer)):
             shape = tuple(shape[0])
         shape = tuple(shape)
+        if order == 'C':
+            return self._reshape_c(shape)
         if order != 'F':
             unsupported('reshape(order=%r)' % order)
         if self.ndim != 1:
@@ -87,12 +114,68 @@ class LV:
         self.obligations.append(('reshape %s: element count equals the view size' % (shape,), new == I(self.shape[0])))
         base = self
 
-        def addr(idx, shape=shape):
+        def mapper(idx, shape=shape):
             lin = z3.IntVal(0)
             for d in reversed(range(len(shape))):
                 lin = idx[d] + I(shape[d]) * lin
-            return base._addr((lin,))
-        return self._child(shape, addr, 'reshape-F')
+            return (lin,)
+        return self._child(shape, None, 'reshape-F', mapper)
+
+    def _reshape_c(self, shape):
+        """C-order reshape: 1-D -> N-D (row major), or N-D -> the same shape (identity, as an obligation)."""
+        if self.ndim == 1:
+            new = z3.IntVal(1)
+            for n in shape:
+                new = new * I(n)
+            self.obligations.append(('reshape %s (C order): element count equals the view size' % (shape,), new == I(self.shape[0])))
+            base = self
+
+            def mapper(idx, shape=shape):
+                lin = z3.IntVal(0)
+                for d in range(len(shape)):
+                    lin = lin * I(shape[d]) + idx[d]
+                return (lin,)
+            return self._child(shape, None, 'reshape-C', mapper)
+        if len(shape) == self.ndim:
+            for d in range(self.ndim):
+                self.obligations.append(('reshape (C order) to the same shape, axis %d' % d, I(shape[d]) == I(self.shape[d])))
+            return self._child(shape, None, 'reshape-same', lambda idx: idx)
+        unsupported('C-order reshape of a %d-D view to %d-D' % (self.ndim, len(shape)))
+        return self
+
+    def flat_c(self):
+        """1-D view in C order (needs division by the trailing extents)."""
+        if self.ndim == 1:
+            return self
+        base = self
+        shape = self.shape
+
+        def mapper(idx):
+            p = idx[0]
+            out = []
+            for d in reversed(range(len(shape))):
+                if d == 0:
+                    out.append(p)
+                else:
+                    p, r = divmod_sym(p, shape[d])
+                    out.append(r)
+            return tuple(reversed(out))
+        return self._child((self.size,), None, 'flat-C', mapper)
+
+    def repeat(self, f, axis=None):
+        f = int(f)
+        if axis is None:
+            flat = self.flat_c()
+            return flat._child((S(I(flat.shape[0]) * f),), None, 'repeat', lambda idx: (divmod_sym(idx[0], f)[0],))
+        axis = axis % self.ndim
+        base = self
+        shape = tuple(S(I(n) * f) if d == axis else n for d, n in enumerate(self.shape))
+        return self._child(shape, None, 'repeat-axis', lambda idx: tuple(divmod_sym(i, f)[0] if d == axis else i for d, i in enumerate(idx)))
+
+    def __mul__(self, o):
+        return KExpr('mul', [self, o])
+
+    __rmul__ = __mul__
 
     def __getitem__(self, key):
         if not isinstance(key, tuple):
@@ -143,7 +226,7 @@ class LV:
                 return self
         base = self
 
-        def addr(idx, maps=maps):
+        def mapper(idx, maps=maps):
             src = []
             j = 0
             for m in maps:
@@ -159,8 +242,8 @@ class LV:
                         t = z3.If(idx[j] == q, vals[q], t)
                     src.append(t)
                     j += 1
-            return base._addr(tuple(src))
-        return self._child(out_shape, addr, 'index')
+            return tuple(src)
+        return self._child(out_shape, None, 'index', mapper)
 
     def flatten(self, order='C'):
         if order != 'F':
@@ -208,7 +291,59 @@ class Region:
         return 0
 
 
+class KExpr:
+    """Opaque arithmetic on views (sum, product, scaling): what was combined, not a value."""
+
+    def __init__(self, op, args):
+        self.op, self.args = op, list(args)
+
+    def __mul__(self, o):
+        return KExpr('mul', [self, o])
+
+    __rmul__ = __mul__
+
+
+class MinMax:
+    """np.min / np.max of a view over its leading axes: an opaque token per component."""
+
+    def __init__(self, view, kind, axis):
+        self.view, self.kind, self.axis = view, kind, axis
+
+    def __iter__(self):
+        n = self.view.shape[-1]
+        n = n if isinstance(n, int) else core.cur().realise_int(I(n), limit=16)
+        return iter([('%s-of-component' % self.kind, self.view, c) for c in range(n)])
+
+
+def concat_last(seq):
+    """np.concatenate(..., axis=-1) of N-D views that agree on the leading axes."""
+    seq = list(seq)
+    first = seq[0]
+    for v in seq[1:]:
+        for d in range(first.ndim - 1):
+            first.obligations.append(('concatenate(axis=-1): leading extents agree on axis %d' % d, I(first.shape[d]) == I(v.shape[d])))
+    total = z3.IntVal(0)
+    bounds = []
+    for v in seq:
+        bounds.append(total)
+        total = total + I(v.shape[-1])
+
+    def addr(idx, seq=seq, bounds=bounds):
+        c = idx[-1]
+        t = seq[-1].at(idx[:-1] + (c - bounds[-1],))
+        for k in range(len(seq) - 2, -1, -1):
+            t = z3.If(c < bounds[k + 1], seq[k].at(idx[:-1] + (c - bounds[k],)), t)
+        return t
+    out = first._child(first.shape[:-1] + (S(total),), addr, 'concat-last')
+    for v in seq[1:]:
+        out.obligations.extend(o for o in v.obligations if o not in out.obligations)
+    return out
+
+
 def concatenate(seq, axis=0):
+    seq = list(seq)
+    if axis in (-1,) and all(isinstance(x, LV) and x.ndim > 1 for x in seq):
+        return concat_last(seq)
     parts = []
     for x in seq:
         if isinstance(x, Region):
@@ -266,13 +401,20 @@ class KFab:
         lin = I(comp)
         for d in reversed(range(self.nd)):
             lin = idx[d] + self.n[d].t * lin
-        return self.start + self.hlen.t + 8 * lin
+        return getattr(self, 'gbase', 0) + self.start + self.hlen.t + 8 * lin
+
+
+_file_ids = itertools.count(1)
 
 
 class KFile:
     def __init__(self, name, fabs, start0=0):
         self.name = name
         self.fabs = fabs
+        # every file owns a disjoint range of one global address space, so an address also says which file
+        self.gbase = next(_file_ids) * 2 ** 62
+        for f in fabs:
+            f.gbase = self.gbase
         pos = I(start0)
         for f in fabs:
             f.start = pos
@@ -330,7 +472,7 @@ class KHandle:
         return GarbageBytes(b'\xff')
 
     def fromfile(self, count):
-        base = self.pos
+        base = self.kf.gbase + self.pos
         n = I(count)
         self.pos = z3.simplify(self.pos + 8 * n)
         return LV(self.kf, (S(n),), lambda idx, base=base: base + 8 * idx[0], 'fromfile')
